@@ -49,6 +49,13 @@ func nasEncodeVia(nv *nasValue) (b []byte, err error) {
 
 func nasDecodeVia(d *nasdesc.Msg, b []byte) (reflect.Value, error) {
 	bb := append([]byte(nil), b...)
+	// the receive buffer is reused by the caller after the decode (as the emulator does with its 2048-octet buffer):
+	// a decoded message must not change when that happens
+	defer func() {
+		for i := range bb {
+			bb[i] = 0xAA
+		}
+	}()
 	if d.Name == "SecurityProtected5GSNASMessage" {
 		p := reflect.New(d.Typ)
 		p.MethodByName("Decode" + d.Name).Call([]reflect.Value{reflect.ValueOf(&bb)})
